@@ -48,10 +48,12 @@ CTORS = {'muted_default': muted_default, 'unscored_default': unscored_default, '
          'gently': C.gently, 'explain': C.explain, 'guidance': C.guidance, 'neg': neg_fb, 'runtime_like': runtime_like}
 
 
-def build(spec):
+def build(spec, report=None):
     ctor = CTORS[spec['ctor']]
     kw = dict(spec['kwargs'])
     pos = kw.pop('_pos', [])
+    if report is not None:
+        kw['report'] = report
     return ctor(*pos, **kw)
 
 
@@ -76,12 +78,23 @@ def frac(x):
 
 def run_case(case):
     MAIN_REPORT.full_clear()
+    rep = None
+    R = MAIN_REPORT
+    if case.get('other_report'):
+        # the grading happens on a report of its own; the global report holds unrelated feedback and suppressions
+        from pedal.core.report import Report
+        rep = R = Report()
+        Feedback(category='runtime', label='decoy', message='decoy on the main report', score='+25%')
+        for cat in ('runtime', 'syntax', 'algorithmic', 'instructor', 'specification', 'student', 'style', 'positive', 'uncategorized'):
+            C.suppress(category=cat)
+        for lab in ('alpha', 'beta', 'Gamma', 'delta', 'gamma'):
+            C.suppress(label=lab)
     objs = []
     ctor_errors = []
     spec_index = {}
     for k, spec in enumerate(case['feedbacks']):
         try:
-            objs.append(build(spec))
+            objs.append(build(spec, rep))
             spec_index[id(objs[-1])] = k
         except Exception as e:  # constructor refused (e.g. compliment without message)
             ctor_errors.append(type(e).__name__)
@@ -93,15 +106,16 @@ def run_case(case):
             kw['label'] = s['label']
         if s.get('fields') is not None:
             kw['fields'] = s['fields']
+        if rep is not None:
+            kw['report'] = rep
         C.suppress(**kw)
     ids = {id(o): i for i, o in enumerate(objs)}
-    order = [o for o in MAIN_REPORT.feedback] + [o for o in MAIN_REPORT.ignored_feedback]
-    snaps_active = [dict(snap(o, ids[id(o)], True), spec=spec_index[id(o)]) for o in MAIN_REPORT.feedback if id(o) in ids]
-    snaps_ignored = [dict(snap(o, ids[id(o)], False), spec=spec_index[id(o)]) for o in MAIN_REPORT.ignored_feedback if id(o) in ids]
+    snaps_active = [dict(snap(o, ids[id(o)], True), spec=spec_index[id(o)]) for o in R.feedback if id(o) in ids]
+    snaps_ignored = [dict(snap(o, ids[id(o)], False), spec=spec_index[id(o)]) for o in R.ignored_feedback if id(o) in ids]
     out = {'active': snaps_active, 'ignored': snaps_ignored, 'ctor_errors': ctor_errors,
-           'suppressions': repr(MAIN_REPORT.suppressions), 'suppressed_labels': repr(MAIN_REPORT.suppressed_labels)}
+           'suppressions': repr(R.suppressions), 'suppressed_labels': repr(R.suppressed_labels)}
     try:
-        final = simple.resolve()
+        final = simple.resolve(R) if rep is not None else simple.resolve()
         used = final.used[0] if final.used else None
         out['simple'] = {
             'used': ids.get(id(used)) if used is not None else None,
@@ -121,7 +135,7 @@ def run_case(case):
     except Exception as e:
         out['simple'] = {'raise': type(e).__name__, 'msg': str(e)[:200]}
     try:
-        final2 = full.resolve()
+        final2 = full.resolve(R) if rep is not None else full.resolve()
         out['full'] = {'used': [ids[id(u)] for u in final2.used], 'label': final2.label, 'correct': final2.correct}
     except Exception as e:
         out['full'] = {'raise': type(e).__name__}
